@@ -258,6 +258,12 @@ def case_nd(ctx, index, rng: random.Random):
     desc = {"dim": d, "bins": [gen.hexlist(np.asarray(p).ravel()) for p, _ in axes], "right_closed": [c for _, c in axes],
             "rows": gen.hexlist(rows.ravel()), "weights": None if wts is None else list(wts), "keep_missed": keep_missed}
 
+    if rng.random() < 0.12:
+        # an axis whose edges arrive as float32 (values stay python floats / float64)
+        ax32 = rng.randrange(len(axes))
+        p32 = np.array(axes[ax32][0]).astype(np.float32)
+        if np.all(p32[:, 0] < p32[:, 1]) and np.all(p32[1:, 0] >= p32[:-1, 1]):
+            axes[ax32] = (p32, axes[ax32][1])
     # the binning class of every axis is part of the case: consecutive axes may be numpy-style binnings (right-open or right-closed)
     axis_class = ["numpy" if (gen.is_consecutive_pairs(p) and rng.random() < 0.5) else "static" for p, _ in axes]
     touch_seed = rng.randrange(10**9)
